@@ -8,28 +8,33 @@ Import ListNotations.
 Open Scope char_scope.
 Open Scope list_scope.
 
-(* ---- full statement (kept visible): every well-formed AST, every writing style ---- *)
+(* ---- the full statement: every well-formed AST (numbers, identifiers, + - * / ^ **, unary minus, parentheses, function
+   calls with any number of arguments, nested), every writing style (blanks, ^ vs **, redundant parentheses) ---- *)
 Definition C05_full_statement : Prop :=
   forall (e : expr) (s : style), wf_expr e = true -> parse (print s e) = Some e.
 
-(* proved for the operator subset (numbers, identifiers, + - * / ^ **, unary minus, parentheses); guard: no_call.
-   Missing for the full statement: function calls `f(a, b)` (nested induction over argument lists through pArgs). *)
-Theorem C05_parse_print_partial : forall (e : expr) (s : style),
-  no_call e = true -> wf_expr e = true -> parse (print s e) = Some e.
-Proof. exact parse_print_partial. Qed.
-Print Assumptions C05_parse_print_partial.
+Theorem C05_parse_print_full : C05_full_statement.
+Proof. exact parse_print. Qed.
+Print Assumptions C05_parse_print_full.
 
 (* token level: any choice of redundant parentheses *)
-Theorem C05_parse_print_tokens : forall (e : expr) (ps : pstyle),
-  no_call e = true -> wf_expr e = true -> parse_toks (pr 0 ps e) = Some e.
+Theorem C05_parse_print_tokens : forall (e : expr) (ps : pstyle), wf_expr e = true -> parse_toks (pr 0 ps e) = Some e.
 Proof. exact parse_print_toks. Qed.
 Print Assumptions C05_parse_print_tokens.
 
-(* hence: two spellings of one AST (spacing, ^ vs **, redundant parentheses) have the same value *)
-Theorem C05_spelling_independent : forall e s s' env venv, no_call e = true -> wf_expr e = true ->
-  eval_string env venv (print s e) = eval_string env venv (print s' e).
+(* hence: two spellings of one AST (spacing, ^ vs **, redundant parentheses) have the same value in every context *)
+Theorem C05_spelling_independent : forall e s s' cx, wf_expr e = true ->
+  eval_ctx cx (print s e) = eval_ctx cx (print s' e).
 Proof. exact spelling_independent. Qed.
 Print Assumptions C05_spelling_independent.
+
+(* literals and unary plus that the printer never emits but the language accepts: read as their decimal value / dropped *)
+Theorem C05_literal_forms :
+  tokenize (s2l "2.5e-1") = Some [TNum ["0"] ["2"; "5"]] /\ tokenize (s2l ".5") = Some [TNum ["0"] ["5"]] /\
+  tokenize (s2l "0.5E1") = Some [TNum ["5"] []] /\ tokenize (s2l "125e-3") = Some [TNum ["0"] ["1"; "2"; "5"]] /\
+  tokenize (s2l "2e") = None /\ parse (s2l "+x - +2") = parse (s2l "x - 2").
+Proof. exact literal_forms. Qed.
+Print Assumptions C05_literal_forms.
 
 (* tokenizer: blanks between tokens and the spelling of the power operator are irrelevant (all token kinds,
    calls and commas included) *)
@@ -47,13 +52,13 @@ Proof. exact pow_same_token. Qed.
 Print Assumptions C05_pow_same_token.
 
 (* order of the terms of a sum / the factors of a product *)
-Theorem C05_sum_perm : forall env venv l l', Permutation l l' ->
-  eval env venv (sum_list l) = eval env venv (sum_list l').
+Theorem C05_sum_perm : forall cx l l', Permutation l l' ->
+  eval cx (sum_list l) = eval cx (sum_list l').
 Proof. exact eval_sum_perm. Qed.
 Print Assumptions C05_sum_perm.
 
-Theorem C05_prod_perm : forall env venv l l', Permutation l l' ->
-  eval env venv (prod_list l) = eval env venv (prod_list l').
+Theorem C05_prod_perm : forall cx l l', Permutation l l' ->
+  eval cx (prod_list l) = eval cx (prod_list l').
 Proof. exact eval_prod_perm. Qed.
 Print Assumptions C05_prod_perm.
 
@@ -89,8 +94,8 @@ Theorem C05_call_vs_paren : forall m X a r f, pE m X = Some (a, TRp :: r) ->
 Proof. exact call_vs_paren. Qed.
 Print Assumptions C05_call_vs_paren.
 
-Theorem C05_eval_identity : forall env venv a, eval env venv (Call (s2l "identity") [a]) = eval env venv a /\
-  eval env venv (Call (s2l "no_op") [a]) = eval env venv a.
+Theorem C05_eval_identity : forall cx a, eval cx (Call (s2l "identity") [a]) = eval cx a /\
+  eval cx (Call (s2l "no_op") [a]) = eval cx a.
 Proof. exact eval_identity. Qed.
 Print Assumptions C05_eval_identity.
 
@@ -115,16 +120,16 @@ Print Assumptions C05_surgery_refuted_unbalanced.
 (* non-vacuity: a non-trivial AST (depth 4, three identifiers, every operator) satisfies the guards; printed in a style
    with redundant parentheses, blanks and alternating ^ / ** it parses back to itself; its value is 41/32 *)
 Example C05_nonvacuous :
-  let e := Sub (Add (Neg (Pow (Var (s2l "r")) (Num ["2"] []))) (Mul (Num ["0"] ["2"; "5"]) (Pow (Var (s2l "x_v1")) (Pow (Num ["2"] []) (Num ["2"] [])))))
+  let e := Sub (Add (Neg (Pow (Call (s2l "no_op") [Var (s2l "r")]) (Num ["2"] []))) (Mul (Num ["0"] ["2"; "5"]) (Pow (Var (s2l "x_v1")) (Pow (Num ["2"] []) (Num ["2"] [])))))
                (Div (Mul (Add (Var (s2l "x_v1")) (Var (s2l "weight"))) (Var (s2l "r"))) (Num ["4"] [])) in
   let st := {| st_par := fun p => match p with [] => 1%nat | [_] => 0%nat | _ => 1%nat end;
                st_sp := fun i => Nat.modulo i 3; st_pw := fun i => Nat.even i |} in
-  (no_call e && wf_expr e = true) /\ parse (print st e) = Some e /\
+  (wf_expr e = true) /\ parse (print st e) = Some e /\
   (48 <=? List.length (print st e) = true)%nat /\
-  oq_eqb (eval (lookup [(s2l "r", mkq 3 2); (s2l "x_v1", mkq 2 1); (s2l "weight", mkq (-3) 4)]) (fun _ => None) e)
+  oq_eqb (eval (mkctx [(s2l "r", mkq 3 2); (s2l "x_v1", mkq 2 1); (s2l "weight", mkq (-3) 4)] [] [] 0) e)
          (Some (mkq 41 32)) = true.
 Proof.
-  split; [vm_compute; reflexivity|]. split; [apply parse_print_partial; vm_compute; reflexivity|].
+  split; [vm_compute; reflexivity|]. split; [apply parse_print; vm_compute; reflexivity|].
   split; vm_compute; reflexivity.
 Qed.
 Print Assumptions C05_nonvacuous.
